@@ -20,7 +20,8 @@ RULE = ("datagrams built by the /verif reference encoder from template-generated
         "unterminated, double-NUL, NUL in the middle, invalid UTF-8), then a generated mutation program (none / byte flips "
         "/ insert / delete / truncate anywhere / append trailing bytes / re-zero-code non-canonically: split runs, 00 01 "
         "pairs, wrap form, trailing lone 00 / inconsistent ack count), then a generated inspection order over {header "
-        "only, msg.blocks, msg[name], to_dict, repr} with deferred parsing on or off, possibly repeated.  Only datagrams "
+        "only, msg.blocks, msg[name], to_dict, repr} with deferred parsing on or off, possibly repeated, in half of the cases with another "
+        "datagram received in between; plus zero-coded bodies with zero runs at the wrap lengths.  Only datagrams "
         "accepted by the header parser are judged (others counted).  Non-trivial = the body was parsed (successfully or "
         "not) before re-encoding; distinct by (datagram bytes, inspection order).")
 ASSUMPTIONS = [
